@@ -173,7 +173,7 @@ def run(ctx):
         q.no_ub_checks = True
     # (1) the printed text must be valid C wherever the original is; (2) concrete side check: parsing the printed helper function
     # again prints the same text (structurally identical tree)
-    fix_bad = []; nfix = 0; runq = []
+    fix_bad = []; nfix = 0; runq = []; fixdone = set()
     slot = 1000
     for q in qs:
         okc, err = syntax_ok(ctx, q.cfiles[0])
@@ -201,7 +201,8 @@ def run(ctx):
             ctx.queries.append(rec)
             continue
         runq.append(q)
-        if q.mode == 'Serial' and q.expect == 'pass':
+        if q.expect == 'pass' and q.prog.name not in fixdone:
+            fixdone.add(q.prog.name)      # once per program, whatever backend its query uses (the side check prints with Serial itself)
             d = os.path.dirname(q.cfiles[0])
             txt, err = O.translate(ctx, os.path.join(d, q.prog.name + '.okl'), 'Serial')
             h1 = helper_text(txt or '', q.prog.name)
